@@ -1369,7 +1369,8 @@ func (t *Table) UnmergeCells(row, col int) error {
 			if col < len(t.Rows[i].Cells) {
 				otherCell := &t.Rows[i].Cells[col]
 				if otherCell.Properties != nil && otherCell.Properties.VMerge != nil {
-					if otherCell.Properties.VMerge.Val == "continue" {
+					// 缺省的val表示continue（Word写出的<w:vMerge/>）
+					if otherCell.Properties.VMerge.Val != "restart" {
 						// 恢复单元格内容
 						otherCell.Properties.VMerge = nil
 						if len(otherCell.Paragraphs) == 0 {
